@@ -25,12 +25,13 @@ from __future__ import annotations
 
 import asyncio
 import itertools
+import os
 from types import SimpleNamespace
 from unittest.mock import patch
 
 from hypothesis import strategies as st
 
-from vk.core import HarnessError, exc_site
+from vk.core import HarnessError, cpu_count, exc_site
 from vk.engine import hyp_search, parallel
 from vk.vloop import BudgetExceeded, Deadlock, run_case
 from vk.xharness import XH
@@ -447,13 +448,23 @@ def _hyp_oracle(ctx, case) -> None:
 
 
 def _hyp_shard(ctx, n: int) -> None:
-    hyp_search(ctx, cases(), _hyp_oracle, n)
+    hyp_search(ctx, cases(), _hyp_oracle, n, shrink_cap_s=5.0 if ctx.quick else 30.0)
 
+
+
+def _procs(want: int = 8) -> int:
+    """Pool size: scheduling only (shards and seeds are the same for every pool size).
+    On a saturated machine the fork pool costs several times the sequential run."""
+    try:
+        load = os.getloadavg()[0]
+    except OSError:
+        load = 0.0
+    return want if load < cpu_count() else 1
 
 def run(ctx) -> None:
     Lmax = ctx.n(3, 4)
-    parallel(ctx, _enum_shard, [(dev, mode, Lmax) for dev in DEVS for mode in ("bus", "direct")], procs=8)
-    parallel(ctx, _hyp_shard, [(ctx.n(300, 5000),)] * 8, procs=8)
+    parallel(ctx, _enum_shard, [(dev, mode, Lmax) for dev in DEVS for mode in ("bus", "direct")], procs=_procs())
+    parallel(ctx, _hyp_shard, [(ctx.n(300, 4000),)] * 8, procs=_procs())
     ctx.notes["exhaustive_up_to_telegrams"] = Lmax
     ctx.exhaustive = False
 
